@@ -4,19 +4,51 @@ CFG = {'lean_modules': ['ObiVerif.Props.C03'],
  'gen': False,
  'thorough_seeds': 8,
  'rule': 'cases = (combinator, parameters, input streams as arrival-ordered lists of numbered batches): random partitions of 0..40 records into 0..6 batches '
-         '(sizes >= 0) in a random arrival order, 1..4 workers, empty first/middle streams for concat, a few histories with a gap (outside the contract), '
-         'every arrival permutation of n<=5 batches in the thorough tier; non-trivial = distinct well-formed case (not bad-op)',
- 'technique': 'Lean 4 theorems on functional models of the obiiter combinators for every batch partition and arrival permutation + differential correspondence '
-              'with the real combinators driven in forced arrival orders + exactly-once/in-order oracle',
- 'level_text': 'Each combinator (SortBatches, Rebatch, FilterEmpty, Concat, DivideOn, FilterOn, MakeISliceWorker, Distribute, PairTo, Pool, IBatchOver) is '
-               'transcribed as a function on arrival-ordered batch lists; the theorems listed in the evidence state, for every partition into batches (empty '
-               'ones included) and every arrival permutation, that the output is numbered 0,1,2,... and carries exactly the records it must, in input order. '
-               'The transcription is tied to the real goroutine-based code by pushing the same arrival histories through real iterators and comparing the '
-               'delivered (number, ids) lists; an oracle checks exactly-once/in-order/numbering directly on the real output.',
- 'level_note': "Trusted: Lean kernel; the transcription (Model/Iter.lean). Partial: 'always terminates' — the functional model cannot deadlock; channel "
-               'blocking, WaitAndClose and the shared finished flag of Split clones are exercised under a 5 s watchdog only. IFragments and '
-               "IMergeSequenceBatch are not modelled here (fragmenting is covered by C11's oracle, merging by C06).",
- 'trusted_base': LEAN_TB + ['Go channels/WaitGroup semantics (runtime)', 'obiseq.BioSequence identity carried by the id string'],
- 'modelled': 'pkg/obiiter batchiterator.go (SortBatches, Concat, Pool, Rebatch, FilterEmpty, DivideOn, FilterOn, IBatchOver), workers.go (MakeISliceWorker), '
-             'distribute.go (Distribute), paired.go (PairTo)',
- 'assumptions': ['each upstream batch number is pushed once (Contract)', 'PairTo is used on streams with the same number of records']}
+         '(sizes >= 0) in a random arrival order, 1..8 workers, empty first/middle streams for concat; worker-stage cases: per-record workers of fan-out 0..20 '
+         '(constant or varying inside a batch, optionally failing records, breakOnError on/off) on batches of 0..4 (thorough: 1..12) records through '
+         'SeqToSliceWorker / SeqToSliceConditionalWorker alone and through MakeIWorker / MakeIConditionalWorker / MakeISliceWorker / ChainWorkers (2..3 stages) with '
+         '1..8 goroutines, every fan-out 0..20 x every batch size systematically; random pipelines of 3..4 stages; histories with a gap or a duplicated number '
+         '(outside the contract: explicit outcomes in the statistics); every arrival permutation of n<=5 batches in the thorough tier; '
+         'non-trivial = distinct well-formed case (not bad-op)',
+ 'technique': 'Lean 4 theorems on functional models of the obiiter combinators for every batch partition and arrival permutation, a verbatim model of the '
+              'growth loop of the record-to-slice adapters, and a small-step transition system of the goroutines/channels of a worker stage + SortBatches '
+              '(safety invariant, deadlock freedom, ranking function) + differential correspondence with the real combinators driven in forced arrival '
+              'orders + exactly-once/in-order oracle with independent naive references',
+ 'level_text': 'Each combinator (SortBatches, Rebatch, FilterEmpty, Concat, DivideOn, FilterOn, MakeISliceWorker, Distribute, PairTo, Pool, IBatchOver, and now '
+               'MakeIWorker, MakeIConditionalWorker, ChainWorkers with the adapters SeqToSliceWorker / SeqToSliceConditionalWorker, IFragments, '
+               'IMergeSequenceBatch, LimitMemory/Speed, Load/Count/CompleteFileIterator, CopyTee, PairedWith) is transcribed as a function on arrival-ordered '
+               'batch lists; the theorems of Props/C03.lean state, for every partition into batches (empty ones included) and every arrival permutation, that '
+               'the output is numbered 0,1,2,... and carries exactly the records it must, in input order. New in this round: (12) the output-slice growth loop of '
+               'the adapters is modelled cell by cell (len=cap slice, write index, slices.Grow with ANY capacity function g that gives a full non-empty slice more '
+               'room) and proved equal to flatMap for every fan-out >= 0 and batch size, with breakOnError / failing records / the condition '
+               '(seqToSlice_keeps_all, seqToSlice_flatMap, seqToSlice_breakOnError, seqToSliceCond_spec, chainWorkers_spec = composition, iWorker_spec, '
+               'iWorker_breakOnError, iCondWorker_spec); (13) "always terminates": Model/ReseqSteps.lean is a transition system (producer, N workers sharing the '
+               'input channel, SortBatches with its received map and next counter, the three WaitAndClose closers, consumer; channel capacity cap >= 0 with '
+               'direct hand-off, cap = 0 being the unbuffered channels of the code) with reseqStage_safety (each batch at exactly one place in every reachable '
+               'state, sent prefix = 0..next-1), reseqStage_progress (a non-final state always has an enabled step; every step decreases rank) and '
+               'reseqStage_terminates_delivers (every execution has <= 8n+N+4 steps, a stuck execution is final, every final state has delivered 0..n-1 in '
+               'order with nothing left anywhere, and this equals Iter.sortBatches / Reseq.run applied to the order in which the sorter received the batches) '
+               '- for every N >= 1, cap >= 0, source order and scheduling; (14) fragments_spec, mergeBatches_spec, passThrough_spec, load_spec, load_perm, '
+               'pairedWith_aligned. The transcription is tied to the real goroutine-based code by pushing the same arrival histories through real iterators '
+               'and comparing the delivered (number, ids) lists; an oracle checks exactly-once/in-order/numbering directly on the real output.',
+ 'level_note': "Trusted: Lean kernel; the transcriptions (Model/Iter.lean, IterWorker.lean, IterMore.lean, ReseqSteps.lean). Partial: the small-step model covers "
+               "ONE stage shape (source -> N workers -> SortBatches -> consumer); the other combinators' goroutines (Rebatch, Concat, Pool, DivideOn, Distribute, "
+               "PairTo) are single producer loops over the same Push/Next/Done/WaitAndClose protocol and are exercised under a 5 s watchdog only; the ~1 ms polling "
+               "loop of WaitAndClose and the pushBack flag are not modelled (WaitAndClose = 'all Done and channel empty -> close'). The transition system is a "
+               "Prop-level model: it is not executed against the code (its big-step result is proved equal to the executable Reseq model, which is). "
+               "SeqToSliceConditionalWorker is modelled as the code is: records that do not satisfy the condition are NOT delivered (no command uses "
+               "MakeIConditionalWorker). IMergeSequenceBatch on an empty group panics inside a library goroutine (Merge indexes sequences[0]): explicit outcome of "
+               "the model (mergeBatches_empty_group), recorded but not executed by the harness; groups come from the obiuniq chunker and are never empty. "
+               "The geometry of the fragments (IFragments cut) is C11's subject: here only that each record gives >= 1 fragment and that the stage keeps "
+               "numbering/order; the cut itself is compared with an independent reference in the harness. A nil worker / nil condition of the adapters "
+               "(pass-through branches) is not modelled. Inputs outside the order contract (gap / duplicate number): model and code agree (SortBatches silently "
+               "drops everything from the first missing number on; a duplicate replaces or is dropped) - explicit statistics, not a property claim.",
+ 'trusted_base': LEAN_TB + ['Go channels/WaitGroup semantics (runtime) as rendered by the Step relation of Model/ReseqSteps.lean',
+                            'slices.Grow(s, cap(s)) gives a full non-empty slice strictly more room (hypothesis Grows g)',
+                            'obiseq.BioSequence identity carried by the id string'],
+ 'modelled': 'pkg/obiiter batchiterator.go (SortBatches, Concat, Pool, Rebatch, FilterEmpty, DivideOn, FilterOn, IBatchOver, Load, Count, CompleteFileIterator; '
+             'Push/Next/Done/WaitAndClose/Split as a transition system), workers.go (MakeISliceWorker, MakeIWorker, MakeIConditionalWorker), distribute.go (Distribute), '
+             'paired.go (PairTo, PairedWith), fragment.go (IFragments), merge.go (IMergeSequenceBatch), pipe.go (CopyTee), limitmemory.go, speed.go (pass-through); '
+             'pkg/obiseq worker.go (SeqToSliceWorker, SeqToSliceConditionalWorker, ChainWorkers)',
+ 'assumptions': ['each upstream batch number is pushed once (Contract)', 'PairTo is used on streams with the same number of records',
+                 'IMergeSequenceBatch receives non-empty groups', 'at least one worker goroutine (N >= 1)']}
